@@ -76,10 +76,8 @@ pub fn exec(line: &str) -> String {
     }
 }
 
-fn run(f: &[String]) -> String {
-    match f[0].as_str() {
-        "abi.enc" => {
-            let bytes: ManagedBuffer<A> = match f[1].as_str() {
+fn encode(f: &[String]) -> ManagedBuffer<A> {
+    let bytes: ManagedBuffer<A> = match f[1].as_str() {
                 "transfer" => InterchainTransferPayload::<A> {
                     message_type: big(&f[2]),
                     token_id: arr32(&f[3]),
@@ -121,11 +119,11 @@ fn run(f: &[String]) -> String {
                 .abi_encode(),
                 t => panic!("unknown type {t}"),
             };
-            format!("ok r={}", buf_out(&bytes))
-        }
-        "abi.dec" => {
-            let payload = buf(&f[2]);
-            match f[1].as_str() {
+    bytes
+}
+
+fn decode(ty: &str, payload: ManagedBuffer<A>) -> String {
+            match ty {
                 "transfer" => {
                     let p = InterchainTransferPayload::<A>::abi_decode(payload);
                     format!(
@@ -173,6 +171,19 @@ fn run(f: &[String]) -> String {
                 }
                 t => panic!("unknown type {t}"),
             }
+}
+
+fn run(f: &[String]) -> String {
+    match f[0].as_str() {
+        "abi.enc" => {
+            let bytes = encode(f);
+            format!("ok r={}", buf_out(&bytes))
+        }
+        "abi.dec" => decode(f[1].as_str(), buf(&f[2])),
+        // round trip through the real encoder and the real decoder
+        "abi.rt" => {
+            let bytes = encode(f);
+            decode(f[1].as_str(), bytes)
         }
         "abi.msgtype" => {
             // body of ExecutableModule::get_message_type (a private trait method): same calls
